@@ -133,4 +133,53 @@ class PolarsTryCoerce(Contract):
         return out
 
 
+def _standin(seed=0, tier="quick"):
+    """run-time contract on the real try_coerce over all integer / float / boolean / text source -> target pairs with boundary values:
+    either ParserError (with one mask row per data row), or a frame whose evaluation succeeds and conforms to the target type"""
+    import itertools
+    import warnings
+
+    from pandera.engines import polars_engine as PE
+
+    warnings.simplefilter("ignore")
+    ints = {pl.Int8: [-128, -1, 0, 127], pl.Int16: [-32768, -1, 0, 32767], pl.Int32: [-2**31, -1, 0, 2**31 - 1], pl.Int64: [-2**63, -1, 0, 2**63 - 1],
+            pl.UInt8: [0, 255], pl.UInt16: [0, 65535], pl.UInt32: [0, 2**32 - 1], pl.UInt64: [0, 2**64 - 1]}
+    sources = dict(ints)
+    sources.update({pl.Float64: [-1.5, 0.0, 1e30, float("nan")], pl.Boolean: [True, False], pl.String: ["1", "-1", "x"]})
+    targets = list(ints) + [pl.Float32, pl.Float64, pl.Boolean, pl.String]
+    n = 0
+    bound = "every (source, target) pair over 8 integer types, Float64, Boolean, String -> 8 integer types, Float32/64, Boolean, String; each boundary value alone and all together, with a null; key in {None,'a'}"
+    for (src, vals), tgt in itertools.product(sources.items(), targets):
+        for rows in [[v] for v in vals] + [list(vals) + [None]]:
+            for key in (None, "a"):
+                n += 1
+                lf = pl.LazyFrame({"a": rows}, schema={"a": src})
+                data = lf if key is None else PE.PolarsData(lf, key)
+                try:
+                    out = PE.Engine.dtype(tgt).try_coerce(data)
+                except ParserError as e:
+                    mask = e.parser_output
+                    h = mask.height if hasattr(mask, "height") else None
+                    if h != len(rows):
+                        return {"examples": n, "bound": bound, "failing_input": {"values": [repr(r) for r in rows], "source": str(src), "target": str(tgt), "key": key},
+                                "observed": f"ParserError whose mask has {h} rows for {len(rows)} data rows"}
+                    continue
+                except Exception as e:  # noqa: BLE001
+                    return {"examples": n, "bound": bound, "failing_input": {"values": [repr(r) for r in rows], "source": str(src), "target": str(tgt), "key": key},
+                            "observed": f"try_coerce leaked {type(e).__name__}: {e}"[:200]}
+                try:
+                    got = out.collect()
+                except Exception as e:  # noqa: BLE001
+                    return {"examples": n, "bound": bound, "failing_input": {"values": [repr(r) for r in rows], "source": str(src), "target": str(tgt), "key": key},
+                            "observed": f"try_coerce returned a frame that cannot be evaluated: {type(e).__name__}: {e}"[:220]}
+                if got.schema["a"] != tgt:
+                    return {"examples": n, "bound": bound, "failing_input": {"values": [repr(r) for r in rows], "source": str(src), "target": str(tgt), "key": key},
+                            "observed": f"returned dtype {got.schema['a']}"}
+    return {"examples": n, "bound": bound, "failing_input": None}
+
+
+PolarsTryCoerce.bounded_standin = staticmethod(_standin)
+
+# the casting behaviour itself is a library fact: the run-time contract also runs on every invocation as a bounded obligation of its own
+BOUNDED = [_standin]
 CONTRACTS = [PolarsTryCoerce]
